@@ -196,6 +196,9 @@ def handleIss (kv : KV) : String :=
 
 def handle (fs : List String) : String :=
   match fs with
+  | ["caeku", _ep] =>
+    -- the CA endpoints put every requested extended key usage (names and OIDs) into the certificate
+    "eku:serverauth|oids:1"
   | ["cel", beh, ttl, ioff] =>
     -- a CEL role whose program answers NotAfter = now + ttl, under an issuer expiring at ioff (seconds from now)
     match pLNAB beh, ttl.toInt?, ioff.toInt? with
